@@ -148,6 +148,8 @@ Qed.
 (* ---------- which ids the new pc awaits: fresh ones, or ones the old pc awaited that were neither delivered nor cancelled ---------- *)
 Definition shape_pc (sh : lres) : option (pc * list nat) :=
   match sh with LKeep p' _ _ cn | LResolve _ p' _ cn => Some (p', cn) | LSelect _ => None end.
+Definition shape_new (sh : lres) : list rpc :=
+  match sh with LKeep _ new _ _ | LResolve _ _ new _ => new | LSelect _ => [] end.
 
 Lemma wait_deliver_awaits base w cid y w' new :
   wait_deliver base w cid y = Some (WGo w' new) ->
@@ -446,4 +448,283 @@ Proof.
       exact (Hd i j x0 y0 k Hne Hx0 Hy0 Hkx Hky).
   - eapply (InvC_calls_change c s); [|reflexivity|reflexivity|exact HC]; auto.
   - (* EvCrash *) constructor; cbn; [intros [|i] x Hx; discriminate|intros [|i] j x y k _ Hx; discriminate].
+Qed.
+
+(* ---------- totality of ownership: every live call is awaited by some lifecycle (InvO) ---------- *)
+Definition InvO (s : sys) : Prop :=
+  forall k cl, nth_error (calls s) k = Some cl -> live (c_st cl) -> exists i x, nth_error (lcs (pl s)) i = Some x /\ In k (awaits (l_pc x)).
+
+(* the ids of the calls a shape issues are awaited by its new pc *)
+Lemma lc_shape_new_awaited c li base tnow p cid y sh p' cn :
+  lc_shape c li base tnow p cid y = Some sh -> shape_pc sh = Some (p', cn) ->
+  forall j, (j < length (shape_new sh))%nat -> In (base + j)%nat (awaits p').
+Proof.
+  assert (One : forall k0 j, (j < 1)%nat -> In (base + j)%nat [k0] -> True) by auto.
+  destruct p; unfold lc_shape; try discriminate;
+    try (destruct (negb (Nat.eqb cid0 cid)); [discriminate|]).
+  - destruct y as [[[[| | |] ?]|]| | | | | | | |]; intros H; inversion H; subst; cbn [shape_pc shape_new]; intros Hs; inversion Hs; subst; cbn [awaits wait_start fst snd length];
+      intros j Hj; try lia; left; lia.
+  - destruct (wait_deliver base w cid y) as [[w' nw|[pr| |] cn0]|] eqn:Ew; try discriminate.
+    + intros H; inversion H; subst. cbn [shape_pc shape_new]. intros Hs; inversion Hs; subst. intros j Hj.
+      destruct w as [k0|k0 l|aw]; cbn in Ew.
+      * destruct (negb _); [discriminate|]. destruct y; inversion Ew; subst. cbn in *. left. lia.
+      * destruct (negb _); [discriminate|]. destruct y as [| | | |[|? ?]| | | |]; try (inversion Ew; fail).
+        destruct l as [|l0 l]; inversion Ew; subst. cbn [awaits].
+        change ((l0, base) :: number_from (S base) l) with (number_from base (l0 :: l)).
+        change (QWaitPart l0 :: map QWaitPart l) with (map QWaitPart (l0 :: l)) in Hj. rewrite map_length in Hj.
+        clear -Hj. revert base j Hj. induction (l0 :: l) as [|z r IH]; intros base j Hj; cbn in *; [lia|].
+        destruct j as [|j]; [left; lia|right]. replace (base + S j)%nat with (S base + j)%nat by lia. apply IH. lia.
+      * destruct (negb (existsb _ aw)); [discriminate|]. destruct y; try (inversion Ew; fail).
+        destruct (filter _ aw); inversion Ew; subst. cbn in Hj. lia.
+    + intros H; inversion H; subst. cbn [shape_succeed shape_pc shape_new]. intros Hs; inversion Hs; subst. cbn. intros j Hj. left. lia.
+    + destruct k; intros H; inversion H; subst; cbn [shape_pay_failed shape_pc shape_new]; intros Hs; inversion Hs; subst; cbn; intros j Hj; left; lia.
+    + destruct k; intros H; inversion H; subst; cbn [shape_pay_failed shape_pc shape_new]; intros Hs; inversion Hs; subst; cbn; intros j Hj; try lia; left; lia.
+  - destruct y; intros H; inversion H; subst; cbn [shape_pc shape_new]; intros Hs; inversion Hs; subst; cbn; intros j Hj; try lia; left; lia.
+  - destruct y; intros H; inversion H; subst; cbn [shape_pc shape_new]; intros Hs; inversion Hs; subst; cbn; intros j Hj; lia.
+  - destruct y; intros H; inversion H; subst; cbn [shape_pc shape_new]; intros Hs; inversion Hs; subst; cbn; intros j Hj; try lia; left; lia.
+  - destruct y; intros H; inversion H; subst; cbn [shape_pc shape_new]; intros Hs; inversion Hs; subst; cbn; intros j Hj; try lia; left; lia.
+  - destruct (pay_reply y); intros H; inversion H; subst; cbn [shape_succeed shape_pay_failed shape_pc shape_new]; intros Hs; inversion Hs; subst; cbn; intros j Hj; left; lia.
+  - destruct y; intros H; inversion H; subst; cbn [shape_pc shape_new]; intros Hs; inversion Hs; subst; cbn; intros j Hj; try lia; left; lia.
+  - intros H; inversion H; subst; cbn [shape_pc shape_new]; intros Hs; inversion Hs; subst; cbn; intros j Hj; lia.
+  - destruct y; intros H; inversion H; subst; cbn [shape_pc shape_new]; intros Hs; inversion Hs; subst; cbn; intros j Hj; try lia; left; lia.
+  - intros H; inversion H; subst; cbn [shape_pc shape_new]; intros Hs; inversion Hs; subst; cbn; intros j Hj; lia.
+Qed.
+
+Lemma lc_shape_retains c li base tnow p cid y sh p' cn :
+  lc_shape c li base tnow p cid y = Some sh -> shape_pc sh = Some (p', cn) ->
+  forall k, In k (awaits p) -> k <> cid -> In k cn \/ In k (awaits p').
+Proof.
+  intros Hsh Hpc k Hk Hne.
+  destruct p as [k1|kk w|k1 a g t|k1 a g t|d|k1 a am mf md|k1 a g am mf md|k1 a g|k1 a pr|k1 a|k1 a g|k1 a g| |];
+    cbn [awaits] in Hk; try (destruct Hk; fail);
+    try (exfalso; destruct Hk as [<-|[]]; unfold lc_shape in Hsh;
+         destruct (Nat.eqb k1 cid) eqn:E; [apply Nat.eqb_eq in E; congruence|cbn in Hsh; discriminate]).
+  (* PWait *)
+  unfold lc_shape in Hsh.
+  destruct w as [k1|k1 l|aw].
+  1,2: exfalso; cbn [awaits] in Hk; destruct Hk as [<-|[]]; cbn [wait_deliver] in Hsh;
+       destruct (Nat.eqb k1 cid) eqn:E; [apply Nat.eqb_eq in E; congruence|cbn in Hsh; discriminate].
+  cbn [awaits] in Hk. apply in_map_iff in Hk as ((pid & c0) & Hc0 & Hin). cbn [snd] in Hc0. subst c0.
+  assert (Hrest : In (pid, k) (filter (fun x => negb (Nat.eqb (snd x) cid)) aw)).
+  { apply filter_In. split; [exact Hin|]. cbn. apply negb_true_iff, Nat.eqb_neq. exact Hne. }
+  assert (Hrest' : In k (map snd (filter (fun x => negb (Nat.eqb (snd x) cid)) aw))).
+  { apply in_map_iff. exists (pid, k). split; [reflexivity|exact Hrest]. }
+  cbn [wait_deliver] in Hsh. destruct (negb (existsb _ aw)); [discriminate|].
+  destruct y; try (destruct kk; inversion Hsh; subst; cbn in Hpc; inversion Hpc; subst; left; exact Hrest'; fail).
+  (* this part failed *)
+  destruct (filter (fun x => negb (Nat.eqb (snd x) cid)) aw) as [|r0 rest] eqn:Ef; [destruct Hrest|].
+  inversion Hsh; subst. cbn in Hpc. inversion Hpc; subst. right. cbn [awaits]. exact Hrest'.
+Qed.
+
+Lemma apply_adv_InvO c s i a x cid :
+  InvO s -> InvC c s -> nth_error (lcs (pl s)) i = Some x ->
+  (forall j, (j < length (a_new a))%nat -> In (length (calls s) + j)%nat (awaits (a_pc a))) ->
+  (forall k, In k (awaits (l_pc x)) -> k <> cid -> In k (a_cancel a) \/ In k (awaits (a_pc a))) ->
+  InvO (fst (apply_adv (with_calls s (set_status cid Delivered (calls s))) i a)).
+Proof.
+  intros HO HC Hx Hnew Hret.
+  destruct (apply_adv_lcs (with_calls s (set_status cid Delivered (calls s))) i a x Hx) as (Hl & _ & _ & _ & _ & Hcalls & _).
+  cbn [with_calls calls pl lcs] in Hcalls, Hl.
+  intros k cl Hk Hlive. rewrite Hcalls in Hk. rewrite Hl.
+  assert (Self : In k (awaits (a_pc a)) -> exists i0 x0, nth_error (upd i (set_pc x (a_pc a)) (lcs (pl s))) i0 = Some x0 /\ In k (awaits (l_pc x0))).
+  { intros Hin. exists i, (set_pc x (a_pc a)). split; [apply nth_error_upd_same; apply nth_error_Some; congruence|exact Hin]. }
+  destruct (Nat.lt_ge_cases k (length (calls s))) as [Hlt|Hge].
+  - rewrite nth_error_app1 in Hk by (rewrite table_length; exact Hlt).
+    destruct (cancel_calls_spec _ _ _ _ Hk) as (cl1 & H1 & _ & Hsame & Hst).
+    destruct (nth_set_status _ _ _ _ _ H1) as (cl0 & H0 & _ & Hne & Heq).
+    destruct (Nat.eq_dec k cid) as [->|Hkc].
+    { exfalso. destruct Hst as [E|E]; rewrite E in Hlive; [rewrite (Heq eq_refl) in Hlive|]; destruct Hlive as [L|[L|(? & L)]]; discriminate. }
+    destruct (in_dec Nat.eq_dec k (a_cancel a)) as [Hin|Hnin].
+    { destruct Hst as [E|E].
+      - (* cancelled ids end up Cancelled *) exfalso.
+        assert (c_st cl = Cancelled).
+        { clear -Hin Hk. unfold cancel_calls in Hk. revert Hk. generalize (set_status cid Delivered (calls s)).
+          induction (a_cancel a) as [|z r IH]; intros cs0 Hk; [destruct Hin|]. cbn [fold_left] in Hk.
+          destruct (in_dec Nat.eq_dec k r) as [Hr|Hr]; [exact (IH Hr _ Hk)|].
+          destruct Hin as [->|Hin]; [|contradiction].
+          fold (cancel_calls r (set_status k Cancelled cs0)) in Hk.
+          destruct (cancel_calls_spec _ _ _ _ Hk) as (cl2 & H2 & _ & Hs2 & _). rewrite (Hs2 Hr).
+          destruct (nth_set_status _ _ _ _ _ H2) as (? & _ & _ & _ & Hq). exact (Hq eq_refl). }
+        rewrite H in Hlive. destruct Hlive as [L|[L|(? & L)]]; discriminate.
+      - exfalso. rewrite E in Hlive. destruct Hlive as [L|[L|(? & L)]]; discriminate. }
+    rewrite (Hsame Hnin), (Hne Hkc) in Hlive.
+    destruct (HO k cl0 H0 Hlive) as (j & y & Hy & Hin).
+    destruct (Nat.eq_dec j i) as [->|Hji].
+    + rewrite Hx in Hy. inversion Hy; subst y. destruct (Hret k Hin Hkc) as [Hc|Ha]; [contradiction|exact (Self Ha)].
+    + exists j, y. split; [rewrite nth_error_upd_other by congruence; exact Hy|exact Hin].
+  - rewrite nth_error_app2 in Hk by (rewrite table_length; exact Hge). rewrite table_length in Hk.
+    destruct (nth_mk_calls _ _ _ Hk) as (q & Hq & _).
+    assert (k - length (calls s) < length (a_new a))%nat by (apply nth_error_Some; congruence).
+    apply Self. replace k with (length (calls s) + (k - length (calls s)))%nat by lia. apply Hnew. exact H.
+Qed.
+
+(* a resolving shape continues at a pc that awaits only the calls it has just issued *)
+Lemma lc_shape_resolve_fresh c li base tnow p cid y r p' new cn :
+  lc_shape c li base tnow p cid y = Some (LResolve r p' new cn) -> forall k, In k (awaits p') -> (base <= k)%nat.
+Proof.
+  destruct p as [k1|kk w|k1 a g t|k1 a g t|d|k1 a am mf md|k1 a g am mf md|k1 a g|k1 a pr|k1 a|k1 a g|k1 a g| |];
+    unfold lc_shape; try discriminate; try (destruct (negb (Nat.eqb k1 cid)); [discriminate|]).
+  - destruct y as [[[[| | |] ?]|]| | | | | | | |]; intros H; inversion H; subst; intros k [].
+  - destruct (wait_deliver base w cid y) as [[w' nw|[pr| |] cn0]|]; try discriminate.
+    + intros H; inversion H; subst. intros k [<-|[]]. lia.
+    + destruct kk; intros H; inversion H; subst. intros k [<-|[]]. lia.
+    + destruct kk; intros H; inversion H; subst. intros k [<-|[]]. lia.
+  - destruct y; intros H; inversion H; subst; intros k [].
+  - destruct y; intros H; inversion H; subst; intros k [].
+  - destruct y; intros H; inversion H; subst; intros k [].
+  - destruct y; intros H; inversion H; subst; intros k [].
+  - destruct (pay_reply y); intros H; inversion H; subst; intros k [<-|[]]; lia.
+  - destruct y; intros H; inversion H.
+  - intros H; inversion H.
+  - destruct y; intros H; inversion H.
+  - intros H; inversion H.
+Qed.
+
+Lemma select_poll_new_awaited c li base hgt tnow d e sel na :
+  let a := select_poll c li base hgt tnow d e sel na in
+  forall j, (j < length (a_new a))%nat -> In (base + j)%nat (awaits (a_pc a)).
+Proof.
+  unfold select_poll. destruct e as [en|]; [|cbn; intros; lia].
+  assert (GP : forall e0, let a := go_pay c li base hgt tnow (Some e0) na in forall j, (j < length (a_new a))%nat -> In (base + j)%nat (awaits (a_pc a))).
+  { intros e0. unfold go_pay. cbn. intros j Hj. left. lia. }
+  assert (DR : forall e0 r, let a := do_resolve e0 r PEnd [] [] [] na in forall j, (j < length (a_new a))%nat -> In (base + j)%nat (awaits (a_pc a))).
+  { intros e0 r. unfold do_resolve. destruct e0; cbn; intros; lia. }
+  destruct (rdy_q en); destruct (fail_q en) as [r|].
+  - destruct sel; [apply GP|apply DR].
+  - apply GP.
+  - apply DR.
+  - cbn. intros; lia.
+Qed.
+
+Lemma enter_select_new_awaited c li base hgt tnow d e sel na :
+  let a := enter_select c li base hgt tnow d e sel na in
+  forall j, (j < length (a_new a))%nat -> In (base + j)%nat (awaits (a_pc a)).
+Proof.
+  unfold enter_select. destruct (d =? 0); [|apply select_poll_new_awaited].
+  unfold do_resolve. destruct e; cbn; intros; lia.
+Qed.
+
+Lemma fire_timers_length : forall l e t l' e' o', fire_timers l e t = (l', e', o') -> length l' = length l.
+Proof.
+  induction l as [|z r IH]; intros e t l' e' o' H; unfold fire_timers in H; fold fire_timers in H; [inversion H; reflexivity|].
+  destruct (l_pc z);
+    try (destruct (fire_timers r e t) as [[r' e1] o1] eqn:E2; inversion H; subst; cbn; f_equal; eapply IH; eauto).
+  destruct (deadline <=? t).
+  - destruct e as [en|]; destruct (fire_timers r None t) as [[r' e1] o1] eqn:E2; inversion H; subst; cbn; f_equal; eapply IH; eauto.
+  - destruct (fire_timers r e t) as [[r' e1] o1] eqn:E2; inversion H; subst; cbn; f_equal; eapply IH; eauto.
+Qed.
+
+Lemma not_live_final st : st = Delivered \/ st = Cancelled \/ st = Dead -> ~ live st.
+Proof. intros [-> | [-> | ->]] [L|[L|(? & L)]]; discriminate. Qed.
+
+Theorem step_InvO c s ev : InvC c s -> InvO s -> InvO (fst (step c s ev)).
+Proof.
+  intros HC HO. destruct ev; cbn [step].
+  - (* EvHtlc *)
+    destruct (entry_ (pl s)) as [e|] eqn:He.
+    + assert (HO1 : forall e1, InvO {| nd := nd s; pl := {| entry_ := Some e1; lcs := lcs (pl s); next_att := next_att (pl s) |}; calls := calls s; now := now s; height := height s |})
+        by (intros e1; exact HO).
+      assert (HC1 : forall e1, InvC c {| nd := nd s; pl := {| entry_ := Some e1; lcs := lcs (pl s); next_att := next_att (pl s) |}; calls := calls s; now := now s; height := height s |})
+        by (intros e1; destruct HC; constructor; cbn; assumption).
+      destruct (find_select 0 (lcs (pl s))) as [[[i d] li]|] eqn:Hf; [|apply HO1].
+      destruct (find_select_spec _ _ _ _ _ Hf) as (x & Hx & Hp & Hli & _). rewrite Nat.sub_0_r in Hx. subst li.
+      match goal with |- InvO (fst (let '(s2, o2) := apply_adv ?s1 ?i ?aa in _)) => assert (HA : InvO (fst (apply_adv s1 i aa))) end.
+      { match goal with |- InvO (fst (apply_adv ?s1 ?i ?aa)) => pose proof (apply_adv_InvO c s1 i aa x (length (calls s)) (HO1 _) (HC1 _) Hx) as G end.
+        cbn [calls with_calls] in G. rewrite set_status_oob in G by lia.
+        apply G.
+        - apply select_poll_new_awaited.
+        - rewrite Hp. intros k []. }
+      match type of HA with InvO (fst ?t) => destruct t as [s2 o2] end. exact HA.
+    + set (nl := {| l_pc := PFetch (length (calls s)); l_info := {| li_blob := blob h; li_deliver := deliver h; li_inv_amount := inv_amount h |} |}).
+      assert (HO1 : forall e1, InvO {| nd := nd s; pl := {| entry_ := Some e1; lcs := lcs (pl s) ++ [nl]; next_att := next_att (pl s) |}; calls := calls s ++ mk_calls [QListState]; now := now s; height := height s |}).
+      { intros e1 k cl Hk Hl. cbn [calls pl lcs] in *. destruct (Nat.lt_ge_cases k (length (calls s))) as [Hlt|Hge].
+        - rewrite nth_error_app1 in Hk by exact Hlt. destruct (HO k cl Hk Hl) as (i & x & Hx & Hin). exists i, x. split; [apply nth_app_l; exact Hx|exact Hin].
+        - rewrite nth_error_app2 in Hk by exact Hge. destruct (k - length (calls s))%nat as [|k0] eqn:Ek; cbn in Hk; [|destruct k0; discriminate].
+          exists (length (lcs (pl s))), nl. split; [rewrite nth_error_app2 by lia; rewrite Nat.sub_diag; reflexivity|]. cbn. left. lia. }
+      pose proof (step_InvC c s (EvHtlc h) HC) as HCs. cbn [step] in HCs. rewrite He in HCs. fold nl in HCs.
+      destruct (find_select 0 (lcs (pl s) ++ [nl])) as [[[i d] li]|] eqn:Hf; [|apply HO1].
+      destruct (find_select_spec _ _ _ _ _ Hf) as (x & Hx & Hp & Hli & _). rewrite Nat.sub_0_r in Hx. subst li.
+      assert (HC1 : forall e1, InvC c {| nd := nd s; pl := {| entry_ := Some e1; lcs := lcs (pl s) ++ [nl]; next_att := next_att (pl s) |}; calls := calls s ++ mk_calls [QListState]; now := now s; height := height s |}).
+      { intros e1. pose proof (step_InvC c {| nd := nd s; pl := {| entry_ := None; lcs := lcs (pl s); next_att := next_att (pl s) |}; calls := calls s; now := now s; height := height s |} (EvHtlc h)) as G.
+        cbn [step pl entry_ lcs calls nd now height next_att] in G. fold nl in G.
+        (* the typing of the state before the select! poll does not depend on the entry *)
+        clear -HC nl. destruct HC as [Ht Hd]. constructor; cbn [pl lcs calls].
+        + intros i x Hx. destruct (Nat.lt_ge_cases i (length (lcs (pl s)))) as [Hlt|Hge].
+          * rewrite nth_error_app1 in Hx by exact Hlt. apply (pc_calls_ok_mono c _ (calls s)); [|exact (Ht i x Hx)].
+            intros k _ q (st & Hq & Hl). exists st. split; [apply nth_app_l; exact Hq|exact Hl].
+          * rewrite nth_error_app2 in Hx by exact Hge. destruct (i - length (lcs (pl s)))%nat as [|k]; cbn in Hx; [|destruct k; discriminate].
+            inversion Hx; subst. cbn [nl l_pc l_info pc_calls_ok]. apply has_call_new0.
+        + intros i j x y k Hne Hx Hy Hkx Hky.
+          assert (Old : forall i0 x0, nth_error (lcs (pl s) ++ [nl]) i0 = Some x0 ->
+                       (nth_error (lcs (pl s)) i0 = Some x0 /\ (i0 < length (lcs (pl s)))%nat) \/ (i0 = length (lcs (pl s)) /\ l_pc x0 = PFetch (length (calls s)))).
+          { intros i0 x0 H0. destruct (Nat.lt_ge_cases i0 (length (lcs (pl s)))) as [Hlt|Hge].
+            - rewrite nth_error_app1 in H0 by exact Hlt. auto.
+            - rewrite nth_error_app2 in H0 by exact Hge. destruct (i0 - length (lcs (pl s)))%nat as [|k0] eqn:Ek; cbn in H0; [|destruct k0; discriminate].
+              inversion H0; subst. right. split; [lia|reflexivity]. }
+          destruct (Old i x Hx) as [(Hx' & Hi)|(Hi & Hpx)]; destruct (Old j y Hy) as [(Hy' & Hj)|(Hj & Hpy)].
+          * exact (Hd i j x y k Hne Hx' Hy' Hkx Hky).
+          * rewrite Hpy in Hky. cbn in Hky. destruct Hky as [<-|[]]. pose proof (pc_calls_ok_awaits_lt c _ _ _ (Ht i x Hx') _ Hkx). lia.
+          * rewrite Hpx in Hkx. cbn in Hkx. destruct Hkx as [<-|[]]. pose proof (pc_calls_ok_awaits_lt c _ _ _ (Ht j y Hy') _ Hky). lia.
+          * lia. }
+      match goal with |- InvO (fst (let '(s2, o2) := apply_adv ?s1 ?i ?aa in _)) => assert (HA : InvO (fst (apply_adv s1 i aa))) end.
+      { match goal with |- InvO (fst (apply_adv ?s1 ?i ?aa)) => pose proof (apply_adv_InvO c s1 i aa x (length (calls s ++ mk_calls [QListState])) (HO1 _) (HC1 _) Hx) as G end.
+        cbn [calls with_calls] in G. rewrite set_status_oob in G by lia.
+        apply G.
+        - apply select_poll_new_awaited.
+        - rewrite Hp. intros k []. }
+      match type of HA with InvO (fst ?t) => destruct t as [s2 o2] end. exact HA.
+  - (* EvProcess *)
+    destruct (nth_error (calls s) cid) as [cl|] eqn:Hcl; [|exact HO]. destruct (c_st cl) eqn:Hst; try exact HO.
+    destruct (node_exec (nd s) (c_rpc cl) f) as [n' y]. cbn [fst]. intros k cl' Hk Hl. cbn [calls pl] in *.
+    destruct (nth_set_status _ _ _ _ _ Hk) as (cl0 & H0 & _ & Hne & _).
+    destruct (Nat.eq_dec k cid) as [->|Hkc].
+    + rewrite Hcl in H0. inversion H0; subst cl0. apply (HO cid cl Hcl). rewrite Hst. left; reflexivity.
+    + rewrite (Hne Hkc) in Hl. exact (HO k cl0 H0 Hl).
+  - (* EvDeliver *)
+    destruct (nth_error (calls s) cid) as [cl|] eqn:Hcl; [|exact HO]. destruct (c_st cl) eqn:Hst; try exact HO.
+    destruct (find_owner c 0 (lcs (pl s)) cid y sel (entry_ (pl s)) (length (calls s)) (height s) (now s) (next_att (pl s))) as [[i a]|] eqn:Hf.
+    2:{ cbn [fst with_calls]. intros k cl' Hk Hl. cbn [calls pl] in *.
+        destruct (nth_set_status _ _ _ _ _ Hk) as (cl0 & H0 & _ & Hne & Heq).
+        destruct (Nat.eq_dec k cid) as [->|Hkc]; [exfalso; rewrite (Heq eq_refl) in Hl; revert Hl; apply not_live_final; auto|].
+        rewrite (Hne Hkc) in Hl. exact (HO k cl0 H0 Hl). }
+    destruct (find_owner_spec _ _ _ _ _ _ _ _ _ _ _ _ _ Hf) as (x & Hx & _ & Hdl). rewrite Nat.sub_0_r in Hx.
+    rewrite lc_deliver_shape in Hdl. destruct (lc_shape c (l_info x) (length (calls s)) (now s) (l_pc x) cid y) as [sh|] eqn:Hsh; [|discriminate].
+    cbn [option_map] in Hdl. inversion Hdl; subst a; clear Hdl.
+    apply (apply_adv_InvO c s i _ x cid HO HC Hx).
+    + destruct sh as [p' new out cancel|r p' new cancel|d]; cbn [adv_of a_pc a_new].
+      * exact (lc_shape_new_awaited _ _ _ _ _ _ _ _ _ _ Hsh eq_refl).
+      * unfold do_resolve. destruct (entry_ (pl s)); cbn [a_pc a_new]; [exact (lc_shape_new_awaited _ _ _ _ _ _ _ _ _ _ Hsh eq_refl)|cbn; intros; lia].
+      * apply enter_select_new_awaited.
+    + destruct sh as [p' new out cancel|r p' new cancel|d]; cbn [adv_of a_pc a_cancel].
+      * exact (lc_shape_retains _ _ _ _ _ _ _ _ _ _ Hsh eq_refl).
+      * unfold do_resolve. destruct (entry_ (pl s)); cbn [a_pc a_cancel].
+        -- exact (lc_shape_retains _ _ _ _ _ _ _ _ _ _ Hsh eq_refl).
+        -- intros k Hk Hne. destruct (lc_shape_retains _ _ _ _ _ _ _ _ _ _ Hsh eq_refl k Hk Hne) as [A|A]; [left; exact A|].
+           pose proof (lc_shape_resolve_fresh _ _ _ _ _ _ _ _ _ _ _ Hsh k A) as Hge.
+           destruct HC as [Ht _]. pose proof (pc_calls_ok_awaits_lt c _ _ _ (Ht i x Hx) k Hk). lia.
+      * intros k Hk Hne. exfalso. clear -Hsh Hk Hne.
+        destruct (l_pc x) as [k1|kk w|k1 a g t|k1 a g t|d0|k1 a am mf md|k1 a g am mf md|k1 a g|k1 a pr|k1 a|k1 a g|k1 a g| |];
+          cbn [awaits] in Hk; try (destruct Hk; fail);
+          try (destruct Hk as [<-|[]]; unfold lc_shape in Hsh; destruct (Nat.eqb k1 cid) eqn:E; [apply Nat.eqb_eq in E; congruence|cbn in Hsh; discriminate]).
+        unfold lc_shape in Hsh. destruct (wait_deliver (length (calls s)) w cid y) as [[w' nw|[pr| |] cn0]|]; try discriminate; destruct kk; discriminate.
+  - destruct (nth_error (parts (nd s)) pid) as [[]|], st; exact HO.
+  - destruct (nth_error (calls s) cid) as [[q st]|]; [|exact HO]. destruct q; try exact HO. destruct st; exact HO.
+  - (* EvPayFinish *)
+    destruct (nth_error (calls s) cid) as [[q st]|] eqn:Hcl; [|exact HO]. destruct q; try exact HO. destruct st; try exact HO.
+    cbn [fst]. intros k cl' Hk Hl. cbn [calls pl] in *.
+    destruct (nth_set_status _ _ _ _ _ Hk) as (cl0 & H0 & _ & Hne & _).
+    destruct (Nat.eq_dec k cid) as [->|Hkc].
+    + rewrite Hcl in H0. inversion H0; subst cl0. apply (HO cid _ Hcl). right; left; reflexivity.
+    + rewrite (Hne Hkc) in Hl. exact (HO k cl0 H0 Hl).
+  - (* EvTick *)
+    destruct (fire_timers (lcs (pl s)) (entry_ (pl s)) (now s + dt)) as [[l' e'] o'] eqn:Hf. cbn [fst].
+    intros k cl Hk Hl. cbn [calls pl lcs] in *. destruct (HO k cl Hk Hl) as (i & x & Hx & Hin).
+    assert (Hi : (i < length l')%nat) by (rewrite (fire_timers_length _ _ _ _ _ _ Hf); apply nth_error_Some; congruence).
+    destruct (nth_error l' i) as [y|] eqn:Hy; [|apply nth_error_None in Hy; lia].
+    destruct (fire_timers_pcs _ _ _ _ _ _ _ _ Hf Hy) as (x0 & Hx0 & _ & Hp). rewrite Hx in Hx0. inversion Hx0; subst x0.
+    exists i, y. split; [exact Hy|]. destruct Hp as [Hp|((d & Hd) & _)]; [rewrite Hp; exact Hin|rewrite Hd in Hin; destruct Hin].
+  - exact HO.
+  - (* EvCrash *) cbn [fst]. intros k cl Hk Hl. exfalso. cbn [calls] in Hk. unfold kill_calls in Hk. rewrite nth_error_map in Hk.
+    destruct (nth_error (calls s) k) as [cl0|]; [|discriminate]. inversion Hk; subst cl. cbn in Hl.
+    revert Hl. apply not_live_final. destruct (c_st cl0); auto.
 Qed.
